@@ -56,8 +56,13 @@ def marker_text(vk, marker):
     return marker
 
 
-class BrokenRepr(object):
-    pass
+class RaisingRepr(object):
+    """a lazy handle / sealed vault: even asking for its repr fails (and the failure text quotes the secret)"""
+    def __init__(self, m):
+        self.m = m
+
+    def __repr__(self):
+        raise RuntimeError('cannot show %s' % self.m)
 
 
 def build(rec, markers):
@@ -67,9 +72,13 @@ def build(rec, markers):
     from clastic.middleware.cookie import SignedCookieMiddleware
     from clastic.static import StaticFileRoute
 
+    class AppSpecificError(Exception):
+        pass
+    broken_exc = [RuntimeError, ZeroDivisionError, AssertionError, AppSpecificError, KeyError, OSError][rec.get('_variant', 0) % 6]
+
     class BrokenReprMw(Middleware):
         def __repr__(self):
-            raise RuntimeError('repr of this middleware is broken')
+            raise broken_exc('repr of this middleware is broken')
 
     class PlainMw(Middleware):
         def request(self, next):
@@ -85,6 +94,8 @@ def build(rec, markers):
     res = {}
     for r in rec['resources']:
         res[NAMES[r['nc']]] = value_of(r['vk'], markers[r['nc']])
+        if r['vk'] == 'obj' and r['nc'] in ('prefix', 'infix', 'suffix', 'exact') and rec.get('_variant', 0) % 2:
+            res[NAMES[r['nc']]] = RaisingRepr(markers[r['nc']])     # a secret is never repr()-ed, so this is harmless
     mws = []
     if 'cookie' in rec['mws']:
         mws.append(SignedCookieMiddleware(secret_key=(KEYMARK * 2).encode('ascii')))
@@ -92,6 +103,12 @@ def build(rec, markers):
         mws.append(BrokenReprMw())
     if 'plain' in rec['mws']:
         mws.append(PlainMw())
+    if 'ctxprocsecret' in rec['mws']:
+        # a host-level context processor that copies a secret-named resource into every render context
+        from clastic.middleware.context import ContextProcessor
+        secret_names = [NAMES[r['nc']] for r in rec['resources'] if r['nc'] in ('prefix', 'infix', 'suffix', 'exact')]
+        if secret_names:
+            mws.append(ContextProcessor(required=secret_names[:1]))
     routes = []
     rk = rec['routes']
     if 'func' in rk:
@@ -213,6 +230,7 @@ def check(run):
     tid = 0
     for rec in recs_in:
         markers = dict((nc, 'MK%s%06dq' % (nc[:3], rng.randrange(10 ** 6))) for nc in NAMES)
+        rec = dict(rec, _variant=rng.randrange(6))
         try:
             app, prefix = build(rec, markers)
         except Exception as ex:  # noqa
@@ -246,7 +264,7 @@ def check(run):
             elif o['keyleak']:
                 sig = 'cookie-key-disclosed'
             elif any(x['leak'] and x['nc'] in ('prefix', 'infix', 'suffix', 'exact') for x in o['res']):
-                sig = 'secret-resource-disclosed:%s' % r_['_rec']['view']
+                sig = 'secret-resource-disclosed:%s%s' % (r_['_rec']['view'], ':via-context-processor' if 'ctxprocsecret' in r_['_rec']['mws'] else '')
             elif not o['inline_ok']:
                 sig = 'broken-section-not-reported-inline:%s' % r_['_rec']['view']
             else:
